@@ -30,6 +30,10 @@ Inputs containing the format's digit-separator byte are outside this grammar (C1
 * A base suffix comes after the exponent (test case `3.0H` has none; nothing else is said).
 * With `required_mantissa_digits` off "empty strings are still invalid": read literally — only the empty
   string; a bare sign denotes a (signed) zero.
+* Integers: a base prefix must be followed by a digit even when no digits are required (`0x` alone is invalid;
+  for floats the implementation accepts it as zero, and so does this grammar). `required_integer_digits` /
+  `required_mantissa_digits` are documented "Used For: Parse Float" only; for integers either of them makes the
+  digits mandatory, and with both off a bare sign is zero.
 * A string that is both a number of the format and a special string (radix ≥ 24: `nan`, radix 36: `inf`)
   is a number.
 
@@ -38,6 +42,10 @@ Inputs containing the format's digit-separator byte are outside this grammar (C1
   the prefix is optional, so `0`, `-0`, `0e5`, `0.` are ordinary numbers of a format with a base prefix.
 * `no_float_leading_zeros` table: `01` invalid — also in a format that has a base prefix (`0012`).
 * a bare `-` with no required digits is *minus* zero (C15 sign of zero).
+* `required_mantissa_digits`: "empty strings are still invalid" — the implementation accepts `""` as `0`
+  (floats and integers) when neither integer nor mantissa digits are required.
+* base suffix "a trailing `x` will be ignored, if present" — integers of a format that also has a base prefix
+  (or `no_integer_leading_zeros`) reject `0h`, `00h`: the skipped zeros are not counted as digits before the suffix.
 -/
 namespace LexVerif.Spec
 open LexVerif.Model (Format Features)
@@ -237,6 +245,7 @@ def grammarIntSyn (y : Syn) (t : IntTy) (s : List Nat) : IRes :=
       r.isEmpty
       && signOk y.noPosMant y.reqMantSign sign
       && !((y.reqInt || y.reqMant) && ds.isEmpty)          -- some digits (both "required digits" flags)
+      && !(pre && ds.isEmpty)                               -- (doc silent; implementation's reading) `0x` needs a digit
       && !(y.noIntLZ && !pre && leadingZeros ds)            -- no_integer_leading_zeros: `01` invalid, `0`, `10` valid
     let v : Int := if sign == some true then -(ofDigits y.radix ds : Int) else (ofDigits y.radix ds : Int)
     if ok && decide (t.minVal ≤ v) && decide (v ≤ t.maxVal) then .ok v else .err
